@@ -266,6 +266,15 @@ Definition mcase := (config * list string * list (string * tobs) * list (mop * m
 Definition PN (p : path) (n : notif) : path * notif := (p, n).
 Definition TG (k : string) (t : tobs) : string * tobs := (k, t).
 Definition SG (l : list sresp) (s : sstat) : list sresp * sstat := (l, s).
+Definition TGS (k : string) (d : list (path * notif)) (m : metaobs) : string * tobs :=
+  (k, TObs true (Some d) (Some m)).
+Definition TGN (k : string) : string * tobs := (k, TObs false None None).
+(** a notification with one update, no duplicates *)
+Definition NU (ts : Z) (pr : gpath) (p : gpath) (v : tv) : notif :=
+  Notif ts (Some pr) None [Upd (Some p) (Some v) 0] [] false.
+(** a notification with one delete *)
+Definition ND (ts : Z) (pr : gpath) (p : gpath) : notif :=
+  Notif ts (Some pr) None [] [p] false.
 Definition STEP (o : mop) (r : rcls) (feed : list notif) (tg : list (string * tobs))
   (star : list (path * notif)) (subs : list (list sresp * sstat)) : mop * mobs :=
   (o, MObs r feed tg star subs).
@@ -355,12 +364,27 @@ Definition mfeed_ordered (m : mfeed) : bool :=
   | MBag l => (List.length l <=? 1)%nat
   end.
 
-(** correspondence of one step: [true] = implementation and model agree *)
-Definition corr_step (s' : mstate) (r : rcls) (f : mfeed) (outs : list (list sresp)) (ob : mobs) : bool :=
+(** correspondence of one step: [true] = implementation and model agree.
+
+    Cost: the per-name comparison is made for the names the operation is
+    addressed to (all names for UpdateMetadata / UpdateSize).  For the other
+    names the model does not move ([C14_isolation_*]) and K_P tag 2 requires the
+    implementation's observation to equal the previous one, which was compared
+    with the model when it was produced.  Query("*") is compared by K_P (tag 5)
+    with the implementation's own per-target queries; here only its size. *)
+Definition addressed (o : mop) (k : string) : bool :=
+  match op_addr o with
+  | AOne t => String.eqb k t
+  | AAll => true
+  | ANone => false
+  end.
+
+Definition corr_step (o : mop) (s' : mstate) (r : rcls) (f : mfeed) (outs : list (list sresp)) (ob : mobs) : bool :=
   rcls_eqb r (o_res ob) &&
   mfeed_matches f (o_feed ob) &&
-  forallb (fun kt => tobs_eqb (model_tobs (ms_cache s') (fst kt)) (snd kt)) (o_tgts ob) &&
-  bag_eqb pn_eqb (star_dump (ms_cache s')) (o_star ob) &&
+  forallb (fun kt => negb (addressed o (fst kt)) ||
+                     tobs_eqb (model_tobs (ms_cache s') (fst kt)) (snd kt)) (o_tgts ob) &&
+  Nat.eqb (List.length (star_dump (ms_cache s'))) (List.length (o_star ob)) &&
   Nat.eqb (List.length outs) (List.length (o_subs ob)) &&
   forallb (fun x => group_eqb (mfeed_ordered f) (fst (fst x)) (fst (snd x)) &&
                     sstat_eqb (sub_stat (snd (fst x))) (snd (snd x)))
